@@ -387,6 +387,18 @@ class SymStr:
             raise ValueError('substring not found')
         return r
 
+    def rindex(self, sub, *a):
+        r = self.rfind(sub, *a)
+        if r < 0:
+            raise ValueError('substring not found')
+        return r
+
+    def __getattr__(self, name):
+        # a str method this model does not implement: refuse (harness error), never an AttributeError of the code under test
+        if hasattr(str, name) and not name.startswith('__'):
+            raise Escape('str.%s is not modelled on symbolic strings' % name)
+        raise AttributeError(name)
+
     def __contains__(self, sub):
         if not isinstance(sub, (str, SymStr)):
             raise TypeError('in <string> requires string as left operand')
@@ -447,6 +459,34 @@ class SymStr:
             k += 1
         parts.append(SymStr(self.cells[i:]))
         return parts
+
+    def rsplit(self, sep=None, maxsplit=-1):
+        if sep is not None:
+            if maxsplit < 0:
+                return self.split(sep)
+            raise Escape('str.rsplit with a separator and maxsplit is not modelled on symbolic strings')
+        if maxsplit < 0:
+            return self.split()
+        # whitespace runs, from the right, at most maxsplit cuts; the remainder keeps its inner blanks (right-stripped)
+        parts, cur, i = [], [], len(self.cells) - 1
+        while i >= 0 and is_space(self.cells[i]):
+            i -= 1
+        while i >= 0 and len(parts) < maxsplit:
+            if is_space(self.cells[i]):
+                parts.append(SymStr(cur[::-1]))
+                cur = []
+                while i >= 0 and is_space(self.cells[i]):
+                    i -= 1
+            else:
+                cur.append(self.cells[i])
+                i -= 1
+        if cur:
+            # ran out of characters inside a field
+            parts.append(SymStr(cur[::-1]))
+            return parts[::-1]
+        if i >= 0:
+            parts.append(SymStr(self.cells[:i + 1]))
+        return parts[::-1]
 
     def splitlines(self, keepends=False):
         parts, cur = [], []
